@@ -284,6 +284,11 @@ def check_refresh_by_sum(ctx, rets, R):
             return False, "self.order_count is not orders.len() (got %s)" % short(cnt)
         for fld, role in want.items():
             v = st.heap.get((selfobj, (("f", None, fld),)))
+            if isinstance(v, tuple) and v[0] == "field" and v[3].isdigit() and isinstance(v[1], tuple) and v[1][0] == "call" and v[1][1].endswith("fold"):
+                ok, why = _fold_component_ok(ctx, v[1], int(v[3]), role, R)
+                if not ok:
+                    return False, "self.%s: %s" % (fld, why)
+                continue
             if not (isinstance(v, tuple) and v[0] == "call" and v[1].endswith("sum")):
                 return False, "self.%s is neither a loop-carried accumulator nor an iterator sum (got %s)" % (fld, short(v))
             if "orders" not in short(v) or ".rev" in short(v):
@@ -310,6 +315,46 @@ def check_refresh_by_sum(ctx, rets, R):
             if not okc:
                 return False, "self.%s does not sum the %s quantity of each order" % (fld, role)
     return True, "iterator sums over self.orders of display/reserve, count = len"
+
+
+def _fold_component_ok(ctx, foldcall, idx, role, R):
+    """idiom C: `self.orders.iter().fold((0, 0), |(v, h), o| (v.saturating_add(o.visible_quantity()), h.saturating_add(..)))`:
+    component idx starts at 0 and is updated to satadd/add(acc.idx, role(o))"""
+    args = foldcall[2]
+    if len(args) != 3:
+        return False, "unexpected fold shape"
+    it, init, clo = args
+    if "orders" not in short(it) or "rev" in short(it):
+        return False, "folds over %s, not over self.orders" % short(it)[:80]
+    if not (isinstance(init, tuple) and init[0] == "tuple" and idx < len(init[1]) and init[1][idx] == Int(0)):
+        return False, "accumulator %d does not start at 0" % idx
+    if not (isinstance(clo, tuple) and clo[0] == "agg" and isinstance(clo[1], str) and clo[1].startswith("closure:")):
+        return False, "no folding closure"
+    cb = ctx.db.bodies.get(clo[1][len("closure:"):])
+    if cb is None:
+        return False, "closure body not found"
+    n = 0
+    for rc in ctx.walker(max_depth=3).walk(cb):
+        if rc.kind != "return":
+            continue
+        n += 1
+        val = rc.value
+        if not (isinstance(val, tuple) and val[0] == "tuple" and idx < len(val[1])):
+            return False, "closure returns %s" % short(val)[:80]
+        comp = val[1][idx]
+        if not (isinstance(comp, tuple) and comp[0] in ("satadd",) and "param" in repr(comp[1])):
+            return False, "component %d is updated to %s, not saturating_add(acc, ..)" % (idx, short(comp)[:80])
+        q = comp[2]
+        vs = [a[2] for a, p in rc.facts.order if a[0] == "variant" and a[2] in R.variants]
+        if not vs:
+            return False, "closure does not discriminate the order"
+        f = (R.display if role == "display" else R.reserve)[vs[0]]
+        if f is None:
+            if q != Int(0):
+                return False, "adds %s for a %s order" % (short(q), vs[0])
+        elif not (isinstance(q, tuple) and q[0] == "field" and q[2] == vs[0] and q[3] == f):
+            return False, "adds %s, not the %s quantity" % (short(q)[:60], role)
+    return n > 0, "fold"
 
 
 def constructor_site_ok(L, r, t, ra):
@@ -357,16 +402,20 @@ def constructor_site_ok(L, r, t, ra):
     sc = short(ca)
     if not (from_refreshed(ca, "order_count") or ("len" in sc and mentions(ca, refreshed))):
         return False, "order count initialised from %s" % sc
-    # queue from the same orders
-    if not (isinstance(q, tuple) and mentions(q, refreshed) and "orders" in short(q)):
-        # queue may be an effect result (Q.from / From::from) whose argument mentions refreshed.orders
-        ok = False
-        for e in r.trace:
-            if e[0] in ("eff", "call") and e[3] == q:
-                if any(mentions(a, refreshed) and "orders" in short(a) for a in e[2]):
+    # queue from exactly the same order list: the constructor's argument must be the `orders` field of the refreshed
+    # value itself (or a clone of it) - not a filtered / sorted / extended version of it
+    want = ("field", ("mut", refreshed, 0), None, "orders")
+    ok = False
+    seen_arg = None
+    for e in r.trace:
+        if e[0] in ("eff", "call") and e[3] == q:
+            for a in e[2]:
+                a2 = a[1] if isinstance(a, tuple) and a[0] == "refval" else a
+                seen_arg = a2
+                if a2 == want:
                     ok = True
-        if not ok:
-            return False, "queue is built from %s, not from the refreshed snapshot's orders" % short(q)
+    if not ok:
+        return False, "the queue is built from %s, which is not exactly the refreshed snapshot's order list (the counters describe that list)" % short(seen_arg if seen_arg is not None else q)[:200]
     return True, "derived from refreshed snapshot"
 
 
